@@ -560,7 +560,12 @@ type c08Case struct {
 	After    []aOp `json:"after"`     // workload run after the recovery, before the second restart
 }
 
+const c08KeyTornValue = "C08:records-after-a-torn-value-are-lost-at-the-next-restart"
+
+var c08KnownTornValue = vIsKnown(c08KeyTornValue)
+
 type c08Info struct {
+	tornValueAfterSkipped int
 	records   int
 	torn      int
 	header    int
@@ -749,11 +754,24 @@ func c08Run(c *c08Case, next func(e *aEnv) []aOp) (info c08Info, err error) {
 			return info, err
 		}
 		got, inst, err := c08RecoverDir(hc, d)
-		os.RemoveAll(d)
 		if err != nil {
+			os.RemoveAll(d)
 			return info, fmt.Errorf("start with the value file cut at byte %d of %d failed: %v\n%s--- history ---\n%s", dc, datSize, err, pDumpDir(base), hist)
 		}
-		inst.vClose(false, false)
+		// second phase: persist more (records with values) after this restart, restart again
+		if len(c.After) > 0 && c08KnownTornValue {
+			// known finding C08:records-after-a-torn-value-are-lost-at-the-next-restart: excluded while listed
+			info.tornValueAfterSkipped++
+			inst.vClose(false, false)
+		} else if len(c.After) > 0 {
+			if err := c08After(c, hc, inst, d, got, -dc-1); err != nil {
+				os.RemoveAll(d)
+				return info, fmt.Errorf("(value file cut at byte %d of %d) %v\n--- history ---\n%s", dc, datSize, err, hist)
+			}
+		} else {
+			inst.vClose(false, false)
+		}
+		os.RemoveAll(d)
 		// the recovered state must be the state of SOME complete-record prefix of the newest file
 		ok := false
 		for k := info.records; k >= 0 && !ok; k-- {
@@ -793,6 +811,10 @@ func c08After(c *c08Case, hc *aCase, inst *vInst, dir string, recovered *pState,
 		cmd.Flag, cmd.DbId, cmd.LockId, cmd.LockKey = 0, uint8(op.Db), aLockId(op.Id), aKey(op.Key)
 		cmd.TimeoutFlag, cmd.Timeout, cmd.ExpriedFlag, cmd.Expried = 0, 0, uint16(op.EF), uint16(op.E)
 		cmd.Count, cmd.Rcount, cmd.Data = uint16(op.Cnt), 0, nil
+		if op.V != nil {
+			cmd.Flag |= protocol.LOCK_FLAG_CONTAINS_DATA
+			cmd.Data = op.V.commandData()
+		}
 		if msg := aSafe(nil, func() { _ = p.ProcessLockCommand(cmd) }); msg != "" {
 			inst.vClose(false, false)
 			return fmt.Errorf("after the restart on the log cut at byte %d: %s", cut, msg)
@@ -875,7 +897,12 @@ func c08Gen(t *rapid.T, thorough bool) (*c08Case, func(e *aEnv) []aOp) {
 		c.DatCuts = append(c.DatCuts, rapid.IntRange(0, 200).Draw(t, "datCut"))
 	}
 	for i := rapid.IntRange(0, 3).Draw(t, "nAfter"); i > 0; i-- {
-		c.After = append(c.After, aOp{K: "lock", Db: 0, Key: 2, Id: 400 + i, E: 900 + i, EF: 0x0100, Cnt: 0xffff})
+		op := aOp{K: "lock", Db: 0, Key: 2, Id: 400 + i, E: 900 + i, EF: 0x0100, Cnt: 0xffff}
+		if rapid.IntRange(0, 1).Draw(t, "afterVal") == 1 {
+			op.Key = 5 + i // a key of its own: the value read back after the second restart is this record's
+			op.V = &aVal{Op: "set", B: rapid.SliceOfN(rapid.Byte(), 1, 9).Draw(t, "afterPayload")}
+		}
+		c.After = append(c.After, op)
 	}
 	return c, gen
 }
@@ -902,6 +929,9 @@ func TestC08_CrashCut(t *testing.T) {
 		if len(c.After) > 0 {
 			cls = append(cls, "second workload + second restart")
 		}
+		for i := 0; i < info.tornValueAfterSkipped; i++ {
+			st.Exclude("second workload + second restart after a value-file cut (known finding " + c08KeyTornValue + ")")
+		}
 		st.Class("crash points", int64(info.offsets+info.datCuts))
 		st.Case(info.records >= 3 && (info.torn > 0 || info.datCuts > 0), vHash(c.H.fingerprint(), fmt.Sprint(c.Offsets, c.DatCuts, len(c.After))), cls, func() interface{} { return c })
 		if err != nil {
@@ -919,6 +949,11 @@ func TestC08_Replay(t *testing.T) {
 		}
 		c.H.Prop = "C08"
 		i := 0
+		savedTV := c08KnownTornValue
+		if key == c08KeyTornValue {
+			c08KnownTornValue = false // the probe of this finding runs the phase that is excluded while it is listed
+		}
+		defer func() { c08KnownTornValue = savedTV }()
 		_, rerr := c08Run(&c, func(e *aEnv) []aOp {
 			if i >= len(c.H.Ops) {
 				return nil
